@@ -186,10 +186,14 @@ def judge_period(case, parser, ts, k, skip=()):
     for fn in case['funcs']:
         env[fn] = FUNCS[fn]
     n = max(1, len(sim))
+    # "the magnitude of the values": the reported values and the start iterate (= the values of period k-1),
+    # which is what the solver's own relative test scales by; the weaker reading of the statement
     norm = Fraction(1)
     for v in sim:
         if v in vals and finite(vals[v]):
             norm = max(norm, abs(Fraction(vals[v])))
+        if v in ts and len(ts[v]) >= k and finite(ts[v][k - 1]):
+            norm = max(norm, abs(Fraction(ts[v][k - 1])))
     bound = Fraction(4 * n) * (1 + Fraction(case['lam'])) * Fraction(tolerance_of(case)) * norm
     for lhs, rhs in submitted_equations(case):
         if lhs in skip:
@@ -320,6 +324,7 @@ def observe(case, whole=True):
         ev = {'ev': 'Step', 'k': k, 'sweeps': int(sweeps), 'cap': cap, 'horizon': horizon,
               'exit': 'converged' if exc is None else exc_class(exc),
               'errNaN': bool(err_nan), 'finite': bool(fin_ok), 'traced': bool(use_trace),
+              'tol_ge1': bool(tolerance_of(case) >= 1.0),
               'resid_ok': True, 'deco_exact': True, 'lag_exact': True, 'exo_exact': True, 'undef': False,
               'len_sim': cl(sim), 'len_lag': cl(lag), 'len_deco': cl(deco),
               'len_min': min(lens), 'len_max': max(lens),
@@ -366,7 +371,7 @@ def observe(case, whole=True):
     return events
 
 
-TLA_STEP_FIELDS = ('ev', 'k', 'sweeps', 'cap', 'horizon', 'exit', 'errNaN', 'finite', 'traced', 'resid_ok', 'undef',
+TLA_STEP_FIELDS = ('ev', 'k', 'sweeps', 'cap', 'horizon', 'exit', 'errNaN', 'finite', 'traced', 'resid_ok', 'undef', 'tol_ge1',
                    'deco_exact', 'lag_exact', 'exo_exact', 'len_sim', 'len_lag', 'len_deco', 'len_min', 'len_max',
                    'prefix_intact', 'exp_n', 'returned')
 TLA_FINISH_FIELDS = ('ev', 'returned', 'contractive', 'exc', 'horizon', 'whole_equal', 'steps', 'lens_ok',
@@ -417,6 +422,15 @@ def scenario(beh, variant=('last', 'div')):
     c = new_case('tlc:' + beh['final'], maxtime=H, cap=cap, reduction=True, lam=10.0)
     eqs, lags, ics, exos = c['eqs'], c['lags'], c['ics'], c['exos']
     position, errkind = variant
+    big = bool(beh.get('big'))
+    if big:
+        # tolerance >= 1: rotated over the values and the two ways of stating it
+        idx = (P * 7 + int(periods[-1]['n']) * 3 + len(beh['final'])) % 6
+        tol = (1.0, 2.0, 1000.0)[idx % 3]
+        if idx < 3:
+            c['tol_line'] = repr(tol)
+        else:
+            c['tol_param'] = tol
     mech = []          # the equations of the failure mechanism (placed last or first)
 
     def failing_rhs(arg):
@@ -446,6 +460,8 @@ def scenario(beh, variant=('last', 'div')):
             d = n - 1
         else:
             d = 0
+        if big and d == 0 and (not fail_here or rec['last'] in ('converge', 'everr_le')):
+            d = 1          # the single sweep has something to do (one sweep is enough at a tolerance >= 1)
         depth.append(min(d, 3))
     u, g2, g3 = [0.0], [0.0], [0.0]
     for p in range(1, H + 1):
@@ -525,7 +541,7 @@ def scenario(beh, variant=('last', 'div')):
     else:
         eqs.extend(mech)
     c['exp'] = exp
-    c['label'] = 'tlc:%s:%s:%s:%s' % (beh['final'], position, errkind, '/'.join('%d%s%s%s' % (r['n'], 't' if r['tr'] else '', r['last'][:4],
+    c['label'] = 'tlc:%s:%s:%s%s:%s' % (beh['final'], position, errkind, ':bigtol' if big else '', '/'.join('%d%s%s%s' % (r['n'], 't' if r['tr'] else '', r['last'][:4],
                                                                       r['deco'][:1]) for r in periods))
     return c
 
@@ -534,6 +550,25 @@ def scenario_realisable(beh):
     for i, r in enumerate(beh['periods']):
         if int(r['n']) > 4:
             return False
+    if beh.get('big'):
+        # at a tolerance >= 1 a relative change never exceeds the tolerance: only periods of one sweep
+        # (or sweeps whose error measure is NaN) can be realised
+        P = len(beh['periods'])
+        for i, r in enumerate(beh['periods']):
+            fail_here = beh['final'] != 'done' and i == P - 1
+            if not fail_here:
+                if int(r['n']) != 1 or r['tr']:
+                    return False
+            elif r['tr']:
+                return False
+            elif r['last'] in ('converge', 'everr_le'):
+                if int(r['n']) != 1:
+                    return False
+            elif r['last'] == 'other':
+                if int(r['n']) != 0:
+                    return False
+            elif r['last'] not in ('overflow', 'overflow_nan'):
+                return False
     return True
 
 
@@ -695,6 +730,16 @@ def classics():
             reduction=red)
         add('overflow-last', [('y', '0.5*y + 10'), ('w', 'y + x'), ('x', '3*x*x + 1')], maxtime=3, lam=1e6,
             reduction=red)
+    # tolerances >= 1, stated in the block and through ParameterErrorTolerance
+    for tol in (1.0, 2.0, 1000.0):
+        for via in ('line', 'param'):
+            kw = {'tol_line': repr(tol)} if via == 'line' else {'tol_param': tol}
+            for red in (True, False):
+                add('bigtol-affine', [('x', '0.5*x + 1000.')], maxtime=3, lam=0.5, reduction=red, **kw)
+                add('bigtol-two', [('x', '0.25*y + 0.25*x + e1'), ('y', '0.5*x + 10'), ('d', '2*x + y')],
+                    exos=[['e1', [5.0, 50.0, -20.0, 400.0]]], maxtime=3, lam=0.5, reduction=red, **kw)
+                add('bigtol-lag', [('x', '0.5*LAG_x + 0.25*x + 100')], lags=[['LAG_x', 'x']], maxtime=3, lam=0.25,
+                    reduction=red, **kw)
     add('cap0-trivial', [('x', '5.0')], maxtime=2, lam=0.0, cap=0)
     add('cap0-trivial-off', [('x', '5.0')], maxtime=2, lam=0.0, cap=0, reduction=False)
     add('userfn', [('x', '0.5*sat(x) + 1 + 0.1*y'), ('y', '0.3*x + 2')], maxtime=3, lam=0.6, funcs=['sat'],
@@ -810,6 +855,12 @@ def random_system(rng, idx, contractive):
         tol_line = '1e-%d' % tol_exp
     elif r < 0.9:
         tol_param = 10.0 ** (-tol_exp)
+    if rng.random() < 0.1:
+        big_tol = rng.choice([1.0, 2.0, 1000.0])          # "all tolerances"
+        if tol_param is not None:
+            tol_param = big_tol
+        else:
+            tol_line, tol_param = repr(big_tol), None
     cap = None if contractive else rng.choice([None, None, None, 0, 1, 2, 5, 12, 50, 400])
     ics = []
     for v in xs:
@@ -849,10 +900,16 @@ def signature(clause, case, events):
         if any(e['exit'] == 'converged' and e['errNaN'] for e in steps):
             return 'nan-error-exits-loop'
         return 'non-finite-value-reported-as-solved'
+    if clause in ('C11_UnsolvableRaises', 'C11_PersistentErrorRaises') and any(
+            e['sweeps'] == 0 and e['exit'] == 'converged' and e['tol_ge1'] for e in steps):
+        return 'no-sweep-at-tolerance-ge-1'
     if clause == 'C11_UnsolvableRaises':
         return 'diverged-period-not-raised'
     if clause == 'C11_PersistentErrorRaises':
         return 'persistent-evaluation-error-not-raised'
+    if clause in ('C02_Residual', 'C02_DecorativeExact') and any(
+            e['sweeps'] == 0 and e['exit'] == 'converged' and e['tol_ge1'] for e in steps):
+        return 'no-sweep-at-tolerance-ge-1'
     if clause == 'C02_Residual' and any(e.get('undef') for e in steps):
         return 'equation-undefined-at-reported-values'
     if clause == 'C11_EqualLengthsAfterFailure':
@@ -1155,8 +1212,9 @@ def harvested_events(rec):
             info['skipped_rows'] = sorted(set(info['skipped_rows']) | set(failed))
         reported = [ts[v][k] for v in nonexo if len(ts[v]) > k]
         fin_ok = all(finite(x) for x in reported) and len(reported) == len(nonexo)
-        ev = {'ev': 'Step', 'k': k, 'sweeps': 0, 'cap': int(rec['max_iterations']), 'horizon': H,
+        ev = {'ev': 'Step', 'k': k, 'sweeps': -1, 'cap': int(rec['max_iterations']), 'horizon': H,
               'exit': 'converged', 'errNaN': not fin_ok, 'finite': bool(fin_ok), 'traced': False,
+              'tol_ge1': bool(tol is not None and tol >= 1.0),
               'resid_ok': True, 'deco_exact': True, 'lag_exact': True, 'exo_exact': True, 'undef': False,
               'len_sim': k + 1, 'len_lag': k + 1, 'len_deco': k + 1, 'len_min': k + 1, 'len_max': k + 1,
               'prefix_intact': True, 'exp_n': -1, 'returned': True, 'lam': round(case['lam'], 6)}
